@@ -110,7 +110,7 @@ func drawC19(t *rapid.T, dir string, toolQuote map[string][]byte) *c19Case {
 			if !allowUsage {
 				return options[0]
 			}
-		case "mismatch", "toohigh", "leading-zero-toohigh":
+		case "mismatch", "toohigh", "leading-zero-toohigh", "mismatch-behind-an-empty-entry":
 			if !allowPolicy {
 				return options[0]
 			}
@@ -379,9 +379,9 @@ func drawC19(t *rapid.T, dir string, toolQuote map[string][]byte) *c19Case {
 	if q != nil {
 		cfgState := "absent"
 		if full {
-			cfgState = pick("cfg-rtmrs", []string{"absent", "absent", "match", "mismatch", "three"})
+			cfgState = pick("cfg-rtmrs", []string{"absent", "absent", "match", "mismatch", "three", "mismatch-behind-an-empty-entry"})
 		}
-		flagState := pick("flag-rtmrs", []string{"absent", "absent", "absent", "match", "partial-match", "mismatch", "three", "nothex"})
+		flagState := pick("flag-rtmrs", []string{"absent", "absent", "absent", "match", "partial-match", "mismatch", "three", "nothex", "mismatch-behind-an-empty-entry", "mismatch-behind-an-empty-entry"})
 		all := [][]byte{q.Rtmr[0][:], q.Rtmr[1][:], q.Rtmr[2][:], q.Rtmr[3][:]}
 		hexes := func(l [][]byte) string {
 			var p []string
@@ -393,6 +393,9 @@ func drawC19(t *rapid.T, dir string, toolQuote map[string][]byte) *c19Case {
 		switch cfgState {
 		case "match":
 			cfg.Policy.TdQuoteBodyPolicy.Rtmrs = [][]byte{all[0], all[1], all[2], all[3]}
+		case "mismatch-behind-an-empty-entry":
+			cfg.Policy.TdQuoteBodyPolicy.Rtmrs = [][]byte{{}, {}, flip(all[2], s), {}}
+			cfgState = "mismatch"
 		case "mismatch":
 			cfg.Policy.TdQuoteBodyPolicy.Rtmrs = [][]byte{all[0], flip(all[1], s), all[2], all[3]}
 		case "three":
@@ -403,6 +406,16 @@ func drawC19(t *rapid.T, dir string, toolQuote map[string][]byte) *c19Case {
 			c.args = append(c.args, "-rtmrs="+hexes(all))
 		case "partial-match":
 			c.args = append(c.args, "-rtmrs="+hex.EncodeToString(all[0])+",,,"+hex.EncodeToString(all[3]))
+		case "mismatch-behind-an-empty-entry":
+			// an empty entry leaves ITS register unchecked, not the ones behind it
+			k := 1 + s.Intn(3)
+			parts := []string{"", "", "", ""}
+			parts[k] = hex.EncodeToString(flip(all[k], s))
+			if k > 1 && s.Intn(2) == 0 {
+				parts[0] = hex.EncodeToString(all[0])
+			}
+			c.args = append(c.args, "-rtmrs="+strings.Join(parts, ","))
+			flagState = "mismatch"
 		case "mismatch":
 			c.args = append(c.args, "-rtmrs="+hexes([][]byte{all[0], all[1], flip(all[2], s), all[3]}))
 		case "three":
@@ -1127,7 +1140,7 @@ func TestC19(t *testing.T) {
 				want int
 			}
 			spell := []sp{{"0", 0}, {fmt.Sprint(actual), 0}, {fmt.Sprintf("0x%x", actual), 0}, {fmt.Sprintf("0X%X", actual), 0}, {fmt.Sprintf("00%d", actual), 0}, {fmt.Sprintf("0b%b", actual), 0}, {fmt.Sprintf("0o%o", actual), 0},
-				{fmt.Sprint(actual - 1), 0}, {fmt.Sprint(actual + 1), 4}, {"65535", 4}, {fmt.Sprintf("0x%x", actual+1), 4},
+				{fmt.Sprint(actual - 1), 0}, {fmt.Sprint(actual + 1), 4}, {fmt.Sprintf("0%d", actual+1), 4}, {fmt.Sprintf("000%d", actual+1), 4}, {fmt.Sprintf("0%d", actual), 0}, {"65535", 4}, {fmt.Sprintf("0x%x", actual+1), 4},
 				{"65536", 1}, {"0x10000", 1}, {"70000", 1}, {"268435456", 1}, {"4026531843", 1}, {"4294967295", 1}, {"4294967296", 1}, {"0x100000000", 1}, {"8589934592", 1}, {fmt.Sprint(4294967296 + actual), 1}, {fmt.Sprint(uint64(1)<<48 + actual), 1},
 				{"18446744073709551615", 1}, {"18446744073709551616", 1}, {"-1", 1}, {"+5", 1}, {" 5", 1}, {"5 ", 1}, {"1e3", 1}, {"12abc", 1}, {"0x", 1}, {"five", 1}, {"0x1_0", 1}, {"1.0", 1}}
 			v := rapid.SampledFrom(spell).Draw(t, "spelling")
